@@ -578,6 +578,13 @@ def run(tier, seed):
         "deserialize_retry_policy is exercised through toml::from_str on `retries = ...` (hook H3), "
         "not through the config crate's layered loader",
     ]
+    # end-to-end stage: generated multi-test runs of the real cargo-nextest over the scripted puppet
+    # workspace, judged by this property's oracle (lib/e2e_general.py)
+    try:
+        import e2e_general
+        e2e_general.stage(chk, PROP, tier, seed)
+    except RuntimeError as ex:
+        chk.violation("broken-obligation", "e2e-build", dict(error=str(ex)[-3000:]), no_input=True)
     return chk.finish(
         gate, "make -C coq Properties/C07.vo && coqc gen/assump_C07.v (Print Assumptions)",
         ["Coq 8.16.1 kernel + vm_compute",
